@@ -420,10 +420,22 @@ def update_option_dependence(ctx):
     ctx.decided("flag-and-cache-found", "cover", "update_only" in tainted and "update_option" in tainted, witness=str(sorted(tainted)))
     ctx.decided("load-vector-independent-of-option-and-cache", "ensures", "load_vector" not in tainted,
                 witness="load_vector depends on the update option / cached data through: %s" % sorted(tainted))
-    allowed = {"update_option", "update_only", "system_matrix", "system_data", "system_cols", "system_rows", "data_order",
-               "row_counter", "unique_rows", "row_counts", "ptr"}
-    ctx.decided("only-the-matrix-construction-depends-on-the-option", "ensures", tainted <= allowed,
-                witness="also depend on the option / cache: %s" % sorted(tainted - allowed))
+    # the option-dependent values leave the function only as the FIRST returned value (the matrix object) and as cache
+    # entries -- whatever the local variables are called
+    leaks = []
+    for r in [n for n in ast.walk(fn) if isinstance(n, ast.Return) and n.value is not None]:
+        elts = r.value.elts if isinstance(r.value, ast.Tuple) else [r.value]
+        for pos, e in enumerate(elts):
+            if pos >= 1 and (_names(e) & tainted):
+                leaks.append("line %d: returned value #%d (%s) depends on %s" % (r.lineno, pos, ast.unparse(e), sorted(_names(e) & tainted)))
+    for st in ast.walk(fn):
+        if isinstance(st, (ast.Assign, ast.AugAssign)):
+            for t in (st.targets if isinstance(st, ast.Assign) else [st.target]):
+                if isinstance(t, ast.Subscript) and ast.unparse(t).startswith("net[") and "_internal_data" not in ast.unparse(t):
+                    val = st.value
+                    if _names(val) & tainted:
+                        leaks.append("line %d: %s stores an option-dependent value outside the cache" % (st.lineno, ast.unparse(t)))
+    ctx.decided("only-the-matrix-object-and-the-cache-depend-on-the-option", "ensures", not leaks, witness="; ".join(leaks))
     # cache write-set over the whole package
     keys = set()
     import os
